@@ -87,3 +87,59 @@ def cut(data, points):
             last = p
     out.append(data[last:])
     return [c for c in out if c]
+
+
+def split_responses(data, head_requests=()):
+    """Transport plumbing only (NOT an oracle): split raw server output into messages
+    [(version, code, reason, [(name, value)...], body_bytes, complete)] following Content-Length /
+    chunked / no-body statuses; `head_requests` = indices of responses to HEAD requests.
+    Properties about response *framing* (C02, C03, C08) must not rely on this helper; they hand
+    the raw bytes to their TLA+ reader."""
+    out = []
+    pos = 0
+    idx = 0
+    while pos < len(data):
+        end = data.find(b"\r\n\r\n", pos)
+        if end < 0:
+            out.append((None, None, None, [], data[pos:], False))
+            break
+        lines = data[pos:end].split(b"\r\n")
+        sl = lines[0].decode("latin1").split(" ", 2)
+        version, code = sl[0], int(sl[1])
+        reason = sl[2] if len(sl) > 2 else ""
+        headers = []
+        for ln in lines[1:]:
+            n, _, v = ln.decode("latin1").partition(":")
+            headers.append((n, v.strip()))
+        pos = end + 4
+        hd = {n.lower(): v for n, v in headers}
+        complete = True
+        if idx in head_requests or code in (204, 304) or 100 <= code < 200:
+            body = b""
+        elif hd.get("transfer-encoding", "").lower() == "chunked":
+            body = b""
+            while True:
+                e2 = data.find(b"\r\n", pos)
+                if e2 < 0:
+                    complete = False
+                    pos = len(data)
+                    break
+                n = int(data[pos:e2].split(b";")[0], 16)
+                pos = e2 + 2
+                if n == 0:
+                    e3 = data.find(b"\r\n", pos)
+                    pos = e3 + 2 if e3 >= 0 else len(data)
+                    break
+                body += data[pos:pos + n]
+                pos += n + 2
+        elif "content-length" in hd:
+            n = int(hd["content-length"])
+            body = data[pos:pos + n]
+            complete = len(body) == n
+            pos += n
+        else:
+            body = data[pos:]
+            pos = len(data)
+        out.append((version, code, reason, headers, body, complete))
+        idx += 1
+    return out
